@@ -120,6 +120,8 @@ def outline_st(draw, can_inherit):
         rows = [[draw(st.sampled_from(CELLS)) for _ in range(ncols)] for _ in range(draw(st.integers(0, 3)))]
         item["ex"].append({"name": draw(name_st()), "tags": draw(tags_st(2)), "tl": draw(st.integers(0, 30)),
                            "cols": cols, "rows": rows})
+        if draw(st.integers(0, 7)) == 0:
+            item["ex"][-1]["notable"] = True    # "Examples:" without any table
     return item
 
 
@@ -322,6 +324,10 @@ def classify(res, feat, facts, text):
     outs = [i for i in _all_items(feat) if i["k"] == "o"]
     if any(len(o["ex"]) >= 2 for o in outs):
         res.label("outline>=2examples")
+    if any(ex.get("notable") for o in outs for ex in o["ex"]):
+        res.label("examples-without-table")
+        if any(o["ex"] and o["ex"][-1].get("notable") for o in outs):
+            res.label("examples-without-table:last-of-its-outline")
         nt = True
     steps = [s for i in _all_items(feat) for s in i["steps"]] + list(feat.get("bg") or [])
     if any(s.get("text") is not None for s in steps):
@@ -351,6 +357,14 @@ def _all_items(feat):
 
 
 def check(case):
+    # the model prints a diagnostic for Examples sections without a table when an outline's rows are built
+    import contextlib
+    import io
+    with contextlib.redirect_stdout(io.StringIO()):
+        return _check(case)
+
+
+def _check(case):
     from behave import parser
     res = CaseResult()
     kind = case.get("kind", "doc")
@@ -631,7 +645,7 @@ def explore(rec):
 
 
 def required_labels(tier):
-    return ["rule", "outline>=2examples", "docstring", "escaped-pipe", "non-english", "noise", "and-but-star", "alias",
+    return ["examples-without-table:last-of-its-outline", "rule", "outline>=2examples", "docstring", "escaped-pipe", "non-english", "noise", "and-but-star", "alias",
             "via-file", "line-endings:crlf", "line-endings:cr", "parser-reuse", "parser-reuse:non-english", "describe-roundtrip", "entry:steps", "entry:scenario", "entry:rule", "entry:tags"]
 
 
@@ -639,3 +653,4 @@ KNOWN_PREDICATES = {}
 
 
 RULE = RULE + " " + ("History: after parse_file() of a document with a '# language:' header the feature's parser object parses a steps text in that language (what context.execute_steps does) and must report the scenario's own steps.")
+RULE = RULE + " " + ('One Examples section in eight has no table at all (tolerated by the parser: its table is None and later tables stay with their steps).')
